@@ -69,6 +69,9 @@ def _decision_asked(t: ast.AST) -> bool:
         return all(ast.unparse(v) == "fail_no_subcommand" or _name_given(v) for v in t.values) and any(ast.unparse(v) == "fail_no_subcommand" for v in t.values)
     return ast.unparse(t) == "fail_no_subcommand"
 
+from .srcmodel import ancestors as _anc17
+
+
 def run(ctx: Ctx) -> int:
     gs = ctx.func(GS)
     hs = ctx.func(HS)
@@ -388,6 +391,24 @@ def run(ctx: Ctx) -> int:
             ok = isinstance(flag, ast.Constant) and flag.value is True
             ctx.oblige("C17.e", ok, c, "the provisional parse of the sub-parser skips validation" if ok else f"`{ast.unparse(c)[:80]}` validates a provisional result: with APP_SUBCOMMAND=run in the environment, `prog stop` fails because `run` misses a required argument / nested subcommand that only the finally chosen command line would have to give", fn=fn_, construct=f"provisional {leaf} skips validation")
     ctx.floor("C17.e-provisional-parses", n_prov, 3)
+
+    # ---------------- C17.i a name given through the environment is never dropped -------------------------------------
+    # _load_env_vars: once the variable of the subcommand option is present, its value reaches the configuration on every
+    # path (to be accepted, overridden by a later source, or rejected by get_subcommands) - an unknown name that is simply
+    # skipped makes `APP_SUBCOMMAND=zzz prog` behave as if nothing had been said, while `subcommand: zzz` in a config is an error
+    glev = ctx.cfg(lev)
+    n_envsub = 0
+    for if_ in [n_ for n_ in walk_local(lev) if isinstance(n_, ast.If) and "_ActionSubCommands" in ast.unparse(n_.test) and " in " in ast.unparse(n_.test)]:
+        reads = [s_ for s_ in if_.body if isinstance(s_, ast.Assign) and isinstance(s_.value, ast.Subscript) and ast.unparse(s_.value.value) == envp]
+        if not reads:
+            continue
+        n_envsub += 1
+        stores = [s_ for s_ in ast.walk(if_) if isinstance(s_, ast.Assign) and any(isinstance(t, ast.Subscript) and ast.unparse(t.slice).endswith(".dest") for t in s_.targets)]
+        loop_ = next((a_ for a_ in _anc17(if_) if isinstance(a_, ast.For)), None)
+        heads_ = [a_ for (a_, _t, _l) in glev.branch_edges(loop_, "loop")] if loop_ is not None else []
+        ok = bool(stores) and bool(heads_) and glev.must_pass(glev.cn(stores), glev.cn(reads), heads_ + [glev.exit], exclude_labels={"e"}, strict=True)
+        ctx.oblige("C17.i", ok, reads[0], "the subcommand name found in the environment is stored on every path" if ok else "a subcommand name found in the environment is stored only when it is one of the choices; any other value is skipped without a word: with optional subcommands APP_SUBCOMMAND=zzz gives subcommand=None, while the same name in a config file or on the command line is rejected", fn=lev, construct="environment subcommand name stored on every path")
+    ctx.floor("C17.i-env-subcommand", n_envsub, 1)
 
     # ---------------- C17.h intermediate folds do not decide ---------------------------------------------------
     # a configuration that is folded in BEFORE the command line / object has been seen (a default config file, a
